@@ -8,13 +8,13 @@ open Gen.N
 
 /-! ### details dictionaries -/
 
-theorem Dealer.dictGet?_set (d : Dict) (k k' : String) (v : WVal) :
+theorem Dict.dget?_set (d : Dict) (k k' : String) (v : WVal) :
     Dict.get? (Dict.set d k v) k' = if k = k' then some v else Dict.get? d k' := by
   by_cases h : k = k'
   · subst h; simp [Dict.get?_set_eq]
   · simp [h, Dict.get?_set_ne d v h]
 
-theorem Dealer.discloseInto_get?_other (role : String) (sid : Nat) (pd d : Dict) {k : String} (h1 : k ≠ role)
+theorem ddiscloseInto_get?_other (role : String) (sid : Nat) (pd d : Dict) {k : String} (h1 : k ≠ role)
     (h2 : k ≠ role ++ "_authid") (h3 : k ≠ role ++ "_authrole") :
     Dict.get? (discloseInto role sid pd d) k = Dict.get? d k := by
   unfold discloseInto
@@ -89,7 +89,7 @@ theorem invDetails_get?_identity (env : DEnv) (reg : Reg) (caller callee : SessK
 theorem discloseCaller_get?_opt (env : DEnv) (caller : SessKey) (d : Dict) {k : String}
     (h1 : k ≠ RoleCaller) (h2 : k ≠ RoleCaller ++ "_authid") (h3 : k ≠ RoleCaller ++ "_authrole") :
     Dict.get? (discloseCaller env caller d) k = Dict.get? d k :=
-  Dealer.discloseInto_get?_other _ _ _ _ h1 h2 h3
+  ddiscloseInto_get?_other _ _ _ _ h1 h2 h3
 
 /-- `timeout` in the INVOCATION details: present iff the CALL has a positive timeout that is forwarded -/
 theorem invDetails_get?_timeout (env : DEnv) (reg : Reg) (caller callee : SessKey) (opts : Dict) (proc : String) :
@@ -180,11 +180,12 @@ inductive InvocationOf (env : DEnv) (s : DState) (caller : SessKey) (req : Nat) 
       (hr : callRefusal env s.d.allowDisclose reg caller callee opts = none) (hf : env.full callee = false) :
       InvocationOf env s caller req opts proc args kw rnd
         ⟨callee, .invocation (genOf s.invGen callee + 1) reg.id (invDetails env reg caller callee opts proc) args kw⟩
-  /-- later chunk of a pending progressive call: the stored callee and invocation id -/
-  | later (reg : Reg) (iid : ReqId) (v0 : Invk) (hm : s.d.matchProcedure proc = some reg)
-      (hb : s.d.byCall? ⟨caller, req⟩ = some iid) (hfi : s.d.findInv iid = some v0) (hf : env.full v0.callee = false) :
+  /-- later chunk of a pending progressive call: the stored callee, invocation id and registration id (the chunk's
+      URI plays no role) -/
+  | later (iid : ReqId) (v0 : Invk) (hb : s.d.byCall? ⟨caller, req⟩ = some iid) (hfi : s.d.findInv iid = some v0)
+      (hf : env.full v0.callee = false) :
       InvocationOf env s caller req opts proc args kw rnd
-        ⟨v0.callee, .invocation iid.req reg.id [(OptProgress, .bool (opts.optFlag OptProgress))] args kw⟩
+        ⟨v0.callee, .invocation iid.req v0.regId [(OptProgress, .bool (opts.optFlag OptProgress))] args kw⟩
 
 theorem syncCancel_no_invocation (env : DEnv) (s : DState) (caller : SessKey) (req : Nat) (mode reason : String)
     (errArgs : List WVal) : ∀ x ∈ (syncCancel env s caller req mode reason errArgs).sends, x.msg.isInvocation = false := by
@@ -212,60 +213,27 @@ theorem syncCall_invocations {env : DEnv} {s : DState} (h : DealerInv s) (caller
     (hx : x ∈ (syncCall env s caller req opts proc args kw rnd).sends) (hi : x.msg.isInvocation = true) :
     (syncCall env s caller req opts proc args kw rnd).sends = [x] ∧
       InvocationOf env s caller req opts proc args kw rnd x := by
-  have hnp : ∀ x ∈ (noProc env s caller req).sends, x.msg.isInvocation = false := by
-    unfold noProc
-    split
-    · exact syncCancel_no_invocation _ _ _ _ _ _ _
-    · simp [errMsg, Msg.isInvocation]
-  rw [syncCall_eq] at hx ⊢
-  split at hx
-  · rw [hnp x hx] at hi; cases hi
-  · rename_i reg hm
-    have hmem := matchProcedure_mem hm
-    split at hx
-    · rw [hnp x hx] at hi; cases hi
-    · rename_i hne
-      split at hx
-      · simp only [List.mem_singleton] at hx; subst hx; cases hi
-      · rename_i hprog
-        rw [if_neg hne, if_neg hprog]
-        split at hx
-        · rename_i hb
-          have hc0 : (⟨caller, req⟩ : ReqId) ∉ s.d.calls := by
-            intro hc'
-            obtain ⟨i, _, hb', _⟩ := h.call.lookup hc'
-            rw [hb] at hb'; cases hb'
-          split at hx
-          · cases hx
-          · rename_i callee reg' hp
-            have hs := (pickCallee_shape hp).1
-            cases hr : callRefusal env s.d.allowDisclose reg caller callee opts with
-            | some r =>
-              rw [firstChunk_eq, hr] at hx
-              cases r <;> (simp only [List.mem_singleton] at hx; subst hx; cases hi)
-            | none =>
-              cases hf : env.full callee with
-              | false =>
-                rw [firstChunk_ok args kw reg' hr hf] at hx ⊢
-                simp only [List.mem_singleton] at hx
-                subst hx
-                exact ⟨rfl, .first reg reg' callee hm hb hp hr hf⟩
-              | true =>
-                rw [(firstChunk_full h hmem args kw (proc := proc) hs hc0 hr hf).1] at hx
-                simp only [List.mem_singleton] at hx; subst hx; cases hi
-        · rename_i iid hb
-          split at hx
-          · cases hx
-          · rename_i v0 hfi
-            cases hf : env.full v0.callee with
-            | false =>
-              rw [laterChunk_ok reg caller req opts args kw iid hf] at hx ⊢
-              simp only [List.mem_singleton] at hx
-              subst hx
-              exact ⟨rfl, .later reg iid v0 hm hb hfi hf⟩
-            | true =>
-              rw [(laterChunk_full h reg opts args kw hb hfi hf).1] at hx
-              simp only [List.mem_singleton] at hx; subst hx; cases hi
-
+  revert hx
+  refine syncCall_cases (env := env)
+    (P := fun o => x ∈ o.sends → o.sends = [x] ∧ InvocationOf env s caller req opts proc args kw rnd x)
+    h caller req opts proc args kw rnd ?_ ?_ ?_ ?_ ?_ ?_ ?_ ?_
+  · intro _ hx
+    simp only [progressAbort, List.mem_singleton] at hx; subst hx; cases hi
+  · intro iid v0 hb hfi _ _ _ _ hf hx
+    simp only [List.mem_singleton] at hx; subst hx
+    exact ⟨rfl, .later iid v0 hb hfi hf⟩
+  · intro iid v0 _ _ _ _ _ _ _ hx
+    simp only [fullOut, List.mem_singleton] at hx; subst hx; cases hi
+  · intro _ _ _ hx
+    simp only [List.mem_singleton] at hx; subst hx; cases hi
+  · intro reg reg' callee e _ _ _ _ _ _ _ hx
+    simp only [List.mem_singleton] at hx; subst hx; cases hi
+  · intro reg reg' callee _ _ _ _ _ _ _ hx
+    simp only [List.mem_singleton] at hx; subst hx; cases hi
+  · intro reg reg' callee hb _ hm _ hp _ hr hf hx
+    simp only [List.mem_singleton] at hx; subst hx
+    exact ⟨rfl, .first reg reg' callee hm hb hp hr hf⟩
+  · intro reg reg' callee _ _ _ _ _ _ _ _ hx
+    simp only [fullOut, List.mem_singleton] at hx; subst hx; cases hi
 
 end Nexus.L2
